@@ -1,6 +1,6 @@
 (* Gran.v — model of vam/granularity.go (blockBufferImageGranularity) and of the accept-all
    handler used by memutils' own tests.  State: one (allocType, allocCount) pair per page;
-   allocCount is a uint16 in Go, the wrap is written out as mod 2^16. *)
+   allocCount is a uint32 in Go, the wrap is written out as mod 2^32. *)
 From Coq Require Import ZArith List Bool Lia.
 From Arsenal Require Import Util.
 Import ListNotations.
@@ -94,11 +94,11 @@ Definition check_conflict (g : gran) (allocOffset allocSize regionOffset regionS
 Definition alloc_one (atype : Z) (r : Z * Z) : Z * Z :=
   let '(ty, cnt) := r in
   let ty' := if (cnt =? 0) || ((cnt >? 0) && (ty =? 0)) then atype else ty in
-  (ty', (cnt + 1) mod 65536).
+  (ty', (cnt + 1) mod 4294967296).
 
 Definition free_one (r : Z * Z) : Z * Z :=
   let '(ty, cnt) := r in
-  let cnt' := (cnt - 1) mod 65536 in
+  let cnt' := (cnt - 1) mod 4294967296 in
   ((if cnt' =? 0 then 0 else ty), cnt').
 
 Definition upd_region (g : gran) (slot : Z) (f : Z * Z -> Z * Z) : option gran :=
@@ -137,13 +137,13 @@ Definition vcount_one (g : gran) (acc : option (list Z * bool)) (a : Z * Z) : op
     match region_at g s with
     | None => None
     | Some rs =>
-      let cnts1 := update_nth (Z.to_nat s) (fun c => (c + 1) mod 65536) cnts in
+      let cnts1 := update_nth (Z.to_nat s) (fun c => (c + 1) mod 4294967296) cnts in
       let ok1 := ok && (1 <=? snd rs) in
       let e := end_slot g off size in
       if s =? e then Some (cnts1, ok1) else
       match region_at g e with
       | None => None
-      | Some re => Some (update_nth (Z.to_nat e) (fun c => (c + 1) mod 65536) cnts1, ok1 && (1 <=? snd re))
+      | Some re => Some (update_nth (Z.to_nat e) (fun c => (c + 1) mod 4294967296) cnts1, ok1 && (1 <=? snd re))
       end
     end
   end.
